@@ -24,4 +24,12 @@ def main():
 
 
 if __name__ == "__main__":   # (worker processes are spawned and import this module)
-    main()
+    try:
+        main()
+    except SystemExit:
+        raise
+    except BaseException:   # a crash of the checker is exit 3 (tool failure) -- never 1, which means "violation"
+        import traceback
+        traceback.print_exc()
+        print("TOOL-ERROR the checker itself crashed (see traceback above); nothing is claimed about the property")
+        sys.exit(3)
